@@ -53,7 +53,8 @@ RefStep(ref, c) ==
          IF p = Root THEN Out("EISDIR", ref)
          ELSE IF ParentProblem(ref, p) # "ok" THEN Out(ParentProblem(ref, p), ref)
          ELSE IF IsDir(ref, p) THEN Out("EISDIR", ref)
-         ELSE IF Exists(ref, p) THEN Out("ok", [ref EXCEPT ![p].content = <<>>, ![p].attr.mt = 0])
+         ELSE IF Exists(ref, p) THEN (IF ref[p].content = <<>> THEN Out("ok", ref)   \* nothing to truncate
+                                      ELSE Out("ok", [ref EXCEPT ![p].content = <<>>, ![p].attr.mt = 0]))
          ELSE Out("ok", RPut(ref, p, FileNode(<<>>)))
     [] c.op = "WriteFile" ->
          IF p = Root THEN Out("EISDIR", ref)
